@@ -136,10 +136,30 @@ def run(ctx):
     # ------------------------------------------------------------------ R03.3 skipped means absent
     wms = [b for b in F.all_bodies(CR) if c02.in_scope(b) and sum(1 for i in range(1, b.arg_count + 1) if "PrefixedStringBuf" in b.locals[i]["ty"]) >= 3]
     ctx.floor("R03.3", "metric writers (value, definition and counts buffers)", len(wms), 1)
+    buf_roles = {}        # metric writer -> (value buffer parameter, definition buffer parameter), decided by what is done with them
     for b in wms:
         pr = Prov(b)
         bufs = [i for i in range(1, b.arg_count + 1) if "PrefixedStringBuf" in b.locals[i]["ty"]]
         valbuf, defbuf = bufs[0], bufs[1]
+        # roles by what is done with the buffers, not by their position in the signature: the definition buffer is the one that
+        # receives the `{"Name":` literal here; the value buffer is the one on which the inner writer emits the member name
+        sim_ = c02.BufSim(F, b, CR)
+        named = [p_ for p_ in bufs if any(x.name == "push_raw_str" and len(x.args) > 1 and '"Name":' in (sim_._const_str(x.args[1]) or "") and
+                                          any(y[0] == "arg" and y[1] == p_ for y in pr.operand(x.args[0])) for x in b.calls())]
+        if len(named) == 1:
+            defbuf = named[0]
+            rest = [p_ for p_ in bufs if p_ != defbuf]
+            valbuf = rest[0]
+            for x in b.calls():
+                for sb in local_callee_bodies(F, x):
+                    if sb.crate != CR:
+                        continue
+                    spr = Prov(sb)
+                    for ai, a in enumerate(x.args):
+                        src = [p_ for p_ in rest if any(y[0] == "arg" and y[1] == p_ for y in pr.operand(a))]
+                        if src and any(z.name == "json_string" and z.args and any(y[0] == "arg" and y[1] == ai + 1 for y in spr.operand(z.args[0])) for z in sb.calls()):
+                            valbuf = src[0]
+        buf_roles[b.def_] = (valbuf, defbuf)
         dom = b.dominators()
 
         def writes_def(x, names):
@@ -307,7 +327,7 @@ def run(ctx):
             if not cbs:
                 continue
             cb = cbs[0]
-            vi = [i for i in range(1, cb.arg_count + 1) if "PrefixedStringBuf" in cb.locals[i]["ty"]][0]
+            vi = buf_roles.get(cb.def_, ([i for i in range(1, cb.arg_count + 1) if "PrefixedStringBuf" in cb.locals[i]["ty"]][0], None))[0]
             ai = vi - 1 if len(c.args) == cb.arg_count else None
             if ai is None:
                 continue
